@@ -29,6 +29,7 @@ def run(ctx):
     check_inline(ctx, prog)
     check_accessors(ctx, prog)
     check_strshare(ctx, prog)
+    check_release(ctx, prog, tags)
     # the element lifetime rules of Array, on the instantiations Var's containers use (Array<Var>, Array<char>, the Dic storage):
     # removing / inserting children must construct and destroy each child exactly once
     n_l = C01.check_lifetime(ctx, prog)
@@ -455,3 +456,87 @@ def check_strshare(ctx, prog):
                       % (f['q'], pe(e), m['q'] + m['sig'], len(mutators) - 1))
     else:
         ctx.ok('C04.strshare', 'asl::Var', 'string buffer is not shared between Vars', fwhere(mutators[0][0]), 'no Var member copy-constructs the buffer from another Var; %d in-place writers' % len(mutators))
+
+
+# ------------------------------------------------------------------ C04.release
+
+def check_release(ctx, prog, tags):
+    """C04.release: no member of Var overwrites the representation (a `memcpy` over *this or an assignment to `_type`) while
+    the object still owns heap storage.  For every such site and every heap-owning tag t, path-sensitive reachability in the
+    CFG with `_type` bound to t on entry (branch conditions - including isPod() and comparisons of `_type` - evaluated): the
+    site must not be reachable without passing a call of free() (or a delegation to another assignment).  A reachable site is
+    a leak of the string / array / object the Var held."""
+    import cfg as cfgm
+    n = 0
+    for f in prog.functions:
+        if f.get('clsp') != 'asl::Var' or not f.get('body') or f.get('kind') in ('ctor', 'dtor') or f['n'] in ('free', 'Var', '~Var'):
+            continue
+        if f['q'].split('::')[-1] in ('Var', '~Var', 'free'):
+            continue
+        sites = []
+        for e in fn_exprs(f):
+            if e.get('k') == 'call' and e.get('fn') == 'memcpy' and strip(e['a'][0]).get('k') == 'this':
+                sites.append((e, 'memcpy over *this'))
+            if e.get('k') == 'bin' and e.get('op') == '=':
+                l = strip_lv(e['x'])
+                if l.get('k') == 'mem' and l.get('f') == '_type' and strip_lv(l.get('b') or {'k': 'this'}).get('k') == 'this':
+                    sites.append((e, 'assignment to _type'))
+        if not sites:
+            continue
+        try:
+            g = cfgm.CFG(f)
+        except Exception as ex:
+            ctx.undecided('C04.release', f['pq'], f['n'] + ':representation overwritten only after release', fwhere(f), 'CFG not built: %s' % ex)
+            continue
+
+        def releases(node):
+            for x in walk_expr(node.e or {}):
+                if x.get('k') == 'call' and (x.get('pq') or '') in ('asl::Var::free', 'asl::Var::operator=', 'asl::Var::clear'):
+                    return True
+            return False
+        ctx.analysed(f)
+
+        def reachable(h, gh, target, tv, depth=0):
+            """target (a site of h) can run while *this holds tag tv: reachable in h from its entry without a release, and - for a
+            private helper, which only other members can call - h itself is called in such a state by one of them"""
+            def bind(x, tv=tv):
+                if x.get('k') == 'mem' and x.get('f') == '_type' and strip_lv(x.get('b') or {'k': 'this'}).get('k') == 'this':
+                    return tv
+                return None
+            ev = bounded.Bound(prog, h, {}, {}, bind=bind)
+            ctx.evaluations += 1
+            if not bounded.reaches(gh, ev, target, avoid=releases):
+                return False
+            if h.get('acc') not in ('private', 'protected') or depth >= 2:
+                return True
+            callers = []
+            for g2 in prog.functions:
+                if g2.get('clsp') != 'asl::Var' or not g2.get('body') or g2 is h:
+                    continue
+                for c in fn_exprs(g2):
+                    if c.get('k') == 'call' and c.get('pq') == h['pq'] and (c.get('sig') in (None, h.get('sig'))) and (c.get('obj') is None or strip_lv(c['obj']).get('k') == 'this'):
+                        callers.append((g2, c))
+            if not callers:
+                return True
+            for g2, c in callers:
+                if g2.get('kind') == 'ctor':
+                    continue            # a constructor has no previous content
+                try:
+                    cg = cfgm.CFG(g2)
+                except Exception:
+                    return True
+                if reachable(g2, cg, c, tv, depth + 1):
+                    return True
+            return False
+        for e, what in sites:
+            n += 1
+            role = '%s%s:%s only after release' % (f['n'], f.get('sig', ''), what)
+            bad = None
+            for tv, names in sorted(tags.items()):
+                if reachable(f, g, e, tv):
+                    bad = (tv, names)
+                    break
+            ctx.check(bad is None, 'C04.release', f['pq'], role, fwhere(f, e.get('l')), 'not reachable with a heap-owning tag unless free() ran first',
+                      '%s: the %s at line %s is reachable while the Var still holds a %s (no free() on that path): the string / container it owned is leaked' % (
+                          f['q'] + f.get('sig', ''), what, e.get('l'), '/'.join(bad[1]) if bad else ''))
+    ctx.floor('C04.release', n, 5)
